@@ -332,6 +332,16 @@ func utilSession(tag byte, n int) func(l logger) {
 		db := newDst(l)
 		berr := wsutil.ControlHandler{Src: bytes.NewReader(bad), Dst: db, State: ws.StateClientSide, DisableSrcCiphering: true}.Handle(ws.Header{Fin: true, OpCode: ws.OpClose, Length: int64(len(bad))})
 		l.Logf("bad-close err=%v reply=%s", berr, framesLog(db.Bytes()))
+		// a close frame built from the library's body constructor, masked in place the way a
+		// client does before sending; then the same body built again
+		for round := 0; round < 2; round++ {
+			body := ws.NewCloseFrameBody(ws.StatusNormalClosure, "")
+			l.Logf("close-body #%d built as %x", round, body)
+			f := ws.MaskFrameInPlaceWith(ws.NewCloseFrame(body), [4]byte{0xde, 0xad, tag, 0x01})
+			dcl := newDst(l)
+			ws.WriteFrame(dcl, f)
+			l.Logf("close-frame #%d %s", round, framesLog(dcl.Bytes()))
+		}
 		// a control writer from the plain constructor, used for two frames (Flush in between),
 		// with pool traffic of the same size class in between
 		dcw := newDst(l)
